@@ -50,6 +50,7 @@ def tag (t : String) (rs : List String) : List String := rs.map (fun r => t ++ r
 def stageReasons (op : String) (opts : Val) (docs : List Val) : List String :=
   if op = "$match" then
     (if normalV opts then [] else ["datenorm"]) ++
+    (if docs.isEmpty then tag "filter:" (Spec.reasons opts (.doc [])) else []) ++
     docs.flatMap (fun d => (if normalV d then [] else ["datenorm"]) ++
       tag "filter:" (Spec.reasons opts d))
   else if op = "$sort" then
